@@ -16,26 +16,38 @@ SPEC = load_spec_module(os.path.join(HERE, '..', 'contracts', 'C16.py'), 'contra
 BM = 'jesse.modes.backtest_mode'
 ST = 'jesse.strategies.Strategy.Strategy'
 FUNCTIONS = ['jesse.modes.utils.save_daily_portfolio_balance', f'{ST}.portfolio_value', f'{ST}.all_positions', f'{ST}.balance',
-             f'{BM}._step_simulator', f'{BM}._skip_simulator', 'jesse.models.Position.Position.pnl', 'jesse.models.Position.Position.value']
+             f'{BM}._step_simulator', f'{BM}._skip_simulator', 'jesse.models.Position.Position.pnl', 'jesse.models.Position.Position.value',
+             'jesse.services.metrics.trades', 'jesse.services.metrics.max_drawdown', 'jesse.services.metrics.cagr',
+             'jesse.services.metrics.sharpe_ratio', 'jesse.services.metrics.sortino_ratio', 'jesse.services.metrics.calmar_ratio',
+             'jesse.services.metrics.omega_ratio', 'jesse.services.metrics._prepare_returns']
 ASSUMPTIONS = [
     'A-1; A-6 backtest mode; A-7',
-    'NOT under contract in this revision: services.metrics.trades and the ratio helpers (pandas): the identities between the '
-    'reported trade metrics and the Sharpe/Sortino/Calmar/Omega/max-drawdown definitions are not decided by this check',
+    'metrics.trades and the ratio helpers run from their real AST over a bounded pandas model (pyvc/pdmodel.py: concrete row count, '
+    'symbolic cells; checked against the real pandas by tools/pdmodel_selftest.py): BOUNDED in the number of trades (<= 3 quick, '
+    '<= 5 thorough) and of daily samples (<= 3 quick, <= 5 thorough), never counted as proved',
+    'sqrt and x**y with a fractional exponent are uninterpreted (congruence only); +-inf and NaN are one non-finite value; every '
+    'float division in metrics.py yields NaN on a zero divisor (numpy scalars), ZeroDivisionError of Python ints is not modelled there',
+    'closed trades are contracted records (to_dict with type / PNL / fee / holding_period): ClosedTrade.to_dict itself is C06 territory; '
+    'serenity_index (not named by the property) is a contracted call; daily balances are positive',
+    'the standard definitions are those of contracts/C16.py (max drawdown on the compounded daily-return curve starting at 1, CAGR over '
+    'the d-1 days spanned with a 365-day year, sample standard deviation, downside deviation over the return observations)',
     'spot equity harness: two routes sharing the quote wallet, at most one resting order per route (status and side symbolic)',
     'sampling: one arbitrary iteration of each simulator loop plus prologue and epilogue, with recording stubs (contracted calls)',
 ]
 TRUSTED = ['list.append']
 EXPLANATION = ('equity sample = wallet + unrealised PnL (futures) / free + reserved quote + base value over all routes (spot); '
-               'one initial sample, one per simulated day, one final. Trade-list metrics and ratio helpers are not under contract.')
+               'one initial sample, one per simulated day, one final. Every number reported by metrics.trades equals its defining '
+               'expression of contracts/C16.py (bounded in list length).')
 MANIFEST = {
     'category': 'proof',
     'text': 'The equity series part of the property is proved: save_daily_portfolio_balance appends wallet + unrealised PnL of all open '
             'positions in futures and, in spot, free quote + quote reserved by the resting buys of every route + market value of the '
             'base held (Strategy.portfolio_value executed from its real AST over two routes); both simulator loops take one initial '
-            'sample, one sample exactly at every i != 0 with i % 1440 == 0, and one final sample after the strategies terminated. The '
-            'trade-list metrics (metrics.trades) and the pandas ratio helpers are NOT under contract in this revision.',
-    'note': 'partial claim: identities between reported trade metrics and the ratio definitions are not decided (pandas code outside '
-            'the engine\'s subset); see assumptions.',
+            'sample, one sample exactly at every i != 0 with i % 1440 == 0, and one final sample after the strategies terminated. '
+            'metrics.trades and the ratio helpers are executed from their real AST over a pandas model: every reported number equals its '
+            'defining expression (TRADE_METRICS / RATIO_METRICS / TRADE_IDENTITIES of contracts/C16.py) for symbolic PnL, fee, holding '
+            'period and equity values - bounded in the number of trades and daily samples.',
+    'note': 'equity sampling: proof; metrics identities: bounded (list lengths), listed under bounded_checks in the evidence.',
 }
 FINDINGS = set(json.loads(os.environ.get('PYVC_FINDINGS', '[]')))
 
@@ -196,6 +208,79 @@ def t_initial(simulator):
     return t
 
 
+def metrics_world(h, pnls, types, fees, holds, balances):
+    from pyvc import pdmodel, npvec, lib
+    npvec.install()
+    lib.NPVEC[0] = npvec
+    pdmodel.install()
+    start, finish = h.real('start'), h.real('finish')
+    h.assume(ops.compare('>', start, 0))
+    trades = [Obj(None, {'to_dict': {'id': f't{j}', 'type': types[j], 'PNL': pnls[j], 'fee': fees[j], 'holding_period': holds[j],
+                                     'size': h.real(f'size{j}', 0), 'entry_price': h.real(f'entry{j}', 0)}}, name=f'trade{j}')
+              for j in range(len(pnls))]
+    ex = Obj(None, {'starting_assets': {'USDT': start}, 'assets': {'USDT': finish}}, name='exchange')
+    app = Obj(None, {'starting_time': 1609459200000, 'total_open_trades': 0, 'total_open_pl': 0}, name='store.app')
+    store = Obj(None, {'exchanges': Obj(None, {'storage': {'Sandbox': ex}}), 'app': app}, name='store')
+    h.ctx.cfg.globals['jesse.services.metrics.store'] = lambda i: store
+    ov = h.ctx.cfg.overrides
+    ov['jesse.helpers.app_currency'] = lambda i, a, k: 'USDT'
+    # serenity index (np.sort / CVaR) is not part of the property: contracted call returning an unconstrained number
+    ov['jesse.services.metrics.serenity_index'] = lambda i, a, k: pdmodel.Ser([h.ctx.fresh_real('serenity', nan=True)])
+    return trades, start, finish
+
+
+def t_trade_metrics(types):
+    """metrics.trades on n = len(types) closed trades with symbolic PnL / fee / holding period (real AST, pandas model)"""
+    def t(h):
+        n = len(types)
+        pnls = [h.real(f'pnl{j}') for j in range(n)]
+        fees = [h.real(f'fee{j}', 0) for j in range(n)]
+        holds = [h.real(f'hold{j}', 0) for j in range(n)]
+        balances = [h.real('b0'), h.real('b1')]
+        for b in balances:
+            h.assume(ops.compare('>', b, 0))
+        trades, start, finish = metrics_world(h, pnls, list(types), fees, holds, balances)
+        h.cover('metrics.trades.pre')
+        out = h.outcome('jesse.services.metrics.trades', trades, balances)
+        h.prove(out.ok, 'metrics.trades.no-exception', {'raised': out.exc})
+        if not out.ok:
+            return
+        m = out.value
+        env = dict(m=m, pnls=pnls, types=list(types), fees=fees, holds=holds, start=start, finish=finish)
+        for key, text in K.TRADE_METRICS.items():
+            h.prove(key in m and h.ev(f'same(m[{key!r}], {text})', **env), f'metrics.trades.{key}-equals-its-definition',
+                    {'clause': f'{key} == {text}'})
+        for cid, text in K.TRADE_IDENTITIES:
+            h.prove(h.ev(text, **env), f'metrics.trades.{cid}', {'clause': text})
+        if n == 2 and types[0] == 'long':
+            h.prove(h.ev("m['win_rate'] == 1", **env), 'metrics.mustfail')
+    return t
+
+
+def t_ratio_metrics(d):
+    """ratio metrics on d daily equity samples (symbolic, positive)"""
+    def t(h):
+        pnls, fees, holds = [h.real('pnl0')], [h.real('fee0', 0)], [h.real('hold0', 0)]
+        balances = [h.real(f'b{j}') for j in range(d)]
+        for b in balances:
+            h.assume(ops.compare('>', b, 0))
+        trades, start, finish = metrics_world(h, pnls, ['long'], fees, holds, balances)
+        h.cover('metrics.ratios.pre')
+        out = h.outcome('jesse.services.metrics.trades', trades, balances)
+        h.prove(out.ok, 'metrics.ratios.no-exception', {'raised': out.exc})
+        if not out.ok:
+            return
+        m = out.value
+        env = dict(m=m, balances=balances)
+        for key, text in K.RATIO_METRICS.items():
+            if f'C16-{key}' in FINDINGS:
+                continue
+            h.prove(key in m and h.ev(f'same(m[{key!r}], {text})', **env), f'metrics.ratios.{key}-equals-its-standard-definition',
+                    {'clause': f'{key} == {text}', 'days': d})
+        h.prove(h.ev("isnan(m['max_drawdown']) or m['max_drawdown'] <= 0", **env), 'metrics.ratios.max-drawdown-is-never-positive')
+    return t
+
+
 def tasks(tier):
     x = dict(spec_mod=SPEC)
     ov = stubs.backtest_mode()
@@ -204,4 +289,14 @@ def tasks(tier):
     for s_ in ('_step_simulator', '_skip_simulator'):
         ts.append(Task(f'sampling.{s_}', t_sampling(s_), extra=dict(x), overrides=dict(ov), invariants={}))
         ts.append(Task(f'initial.{s_}', t_initial(s_), extra=dict(x), overrides=dict(ov), invariants={}))
+    combos = [('long',), ('short',), ('long', 'short'), ('long', 'long', 'short'), ('short', 'long', 'short')]
+    if tier == 'thorough':
+        combos += [('long', 'short', 'long', 'short'), ('short', 'short', 'long', 'long', 'short')]
+    xm = dict(x, np_scalar_div=True, merge_ifs=True, fork_solver=True)
+    for types in combos:
+        ts.append(Task('metrics.trades.' + ''.join(t_[0] for t_ in types), t_trade_metrics(types), overrides=dict(ov), max_paths=20000,
+                       extra=dict(xm, bounded=f'{len(types)} closed trades (symbolic PnL, fee, holding period), pandas model', task_timeout_s=300 if tier == 'quick' else 1800)))
+    for d in ((2, 3) if tier == 'quick' else (2, 3, 4, 5)):
+        ts.append(Task(f'metrics.ratios.d{d}', t_ratio_metrics(d), overrides=dict(ov), max_paths=20000,
+                       extra=dict(xm, bounded=f'{d} daily equity samples (symbolic), pandas model', task_timeout_s=300 if tier == 'quick' else 3600)))
     return ts
